@@ -12,6 +12,9 @@ import (
 func jsonIndent(v interface{}) ([]byte, error) { return json.MarshalIndent(v, "", " ") }
 
 func main() {
+	if r := os.Getenv("ZSYM_REPO"); r != "" {
+		repoDir = r
+	}
 	if len(os.Args) < 2 {
 		fmt.Fprintln(os.Stderr, "usage: zsym run|check|replay ...")
 		os.Exit(2)
